@@ -15,6 +15,8 @@
      fix_eof  : io_.py run_async catches IncompleteReadError / ConnectionError -> break  (row 9)
      fix_wrap : start_io hands `self._report_server_error` (try/except around the user hook)
                 to run_async instead of the bare user hook `self.report_server_error`    (row 6)
+     fix_task : _server_exit cancels the asyncio Task of a coroutine handler it finds in
+                _request_futures instead of calling set_exception on it   (notes/fix_C17_2.patch)
    NO proofs in this file. *)
 From Coq Require Import NArith ZArith List Bool.
 Import ListNotations.
@@ -32,6 +34,7 @@ Inductive hook_kind :=
 Record config := {
   fix_eof : bool;
   fix_wrap : bool;
+  fix_task : bool;         (* _server_exit cancels handler tasks instead of calling set_exception on them *)
   hook : hook_kind;        (* what the server_exit override does *)
   errhook_raises : bool    (* the report_server_error override raises an Exception *)
 }.
@@ -46,13 +49,26 @@ Inductive fstate :=                                            (* a future hande
 | FailedExit (rc : Z)                                          (* set_exception(RuntimeError(reason)) *)
 | Cancelled.                                                   (* the caller cancelled it *)
 
-Inductive exn := ExIncompleteRead | ExErrHook.
+Inductive exn := ExIncompleteRead | ExErrHook | ExTaskSetException.
 Inductive rstatus := RNotStarted | RBlocked | REnded | RRaised (e : exn).   (* the reader task *)
 Inductive pstatus := Alive | Exited (rc : Z).                               (* the server process *)
 Inductive xstatus :=                                                        (* the _server_exit task *)
 | XWaiting                                   (* in `await self._server.wait()` *)
 | XInHook (rc : Z) (awaited : list id)       (* suspended inside `await self.server_exit(...)` *)
-| XDone.
+| XDone
+| XRaised (e : exn).                        (* the coroutine died with an exception *)
+
+(* protocol._request_futures holds two kinds of entries (one dict, insertion ordered):
+   the future of a request this side sent, and the asyncio Task of a coroutine handler that is
+   serving a request the server sent *)
+Inductive entry := Own (i : id) | HTask (j : id).
+
+(* the handler task of a server-initiated request *)
+Inductive hstate :=
+| HSuspended          (* created / awaiting something *)
+| HCancelRequested    (* Task.cancel() was called, the task has not run since *)
+| HFinished           (* returned; _execute_request_callback answered and removed the entry *)
+| HCancelled.         (* cancelled; the callback answered with an error and removed the entry *)
 
 (* what the server wrote and the reader has not consumed yet: complete items only *)
 Inductive item :=
@@ -60,6 +76,7 @@ Inductive item :=
 | BadReply (i : id)            (* a complete frame that names request i but cannot be decoded or is
                                   not accepted as a response: error member of the wrong shape, result
                                   failing validation, other protocol version *)
+| Request (j : id)             (* a complete request frame for a method with a coroutine handler *)
 | BadFrame                     (* a complete frame whose body cannot be handled (not JSON) *)
 | Junk.                        (* a complete line that is not a header *)
 
@@ -79,11 +96,15 @@ Inductive event :=
 | ProcExit (rc : Z) (t : tail) (* the process terminates; the stream ends with t *)
 | ReaderRun                    (* the reader task runs until it blocks or ends *)
 | ServerExitTask               (* the _server_exit coroutine runs until it suspends or finishes *)
+| HandlerStep (j : id)         (* the handler task of server request j gets a turn: it takes a requested
+                                  cancellation, otherwise it keeps waiting *)
+| HandlerReturn (j : id)       (* what that handler waits for happens: it returns *)
 | Stop.                        (* the caller calls stop() *)
 
 Record state := {
   futs : list (id * fstate);   (* every future handed out, in creation order *)
-  rf : list id;                (* keys of protocol._request_futures, insertion order *)
+  rf : list entry;             (* protocol._request_futures, insertion order *)
+  htasks : list (id * hstate); (* the handler tasks ever created, by server request id *)
   next : id;                   (* fresh id supply (uuid4 in the code) *)
   out : list id;               (* requests handed to writer.write, in order *)
   pipe : list item;            (* written by the server, not yet consumed by the reader *)
@@ -100,7 +121,7 @@ Record state := {
 
 (* start_io: both tasks created, nothing has run yet *)
 Definition init : state := {|
-  futs := []; rf := []; next := 0; out := []; pipe := []; proc := Alive; tl := TClean;
+  futs := []; rf := []; htasks := []; next := 0; out := []; pipe := []; proc := Alive; tl := TClean;
   reader := RNotStarted; xtask := XWaiting; stopped := false; hook_calls := []; errs := 0;
   stop_called := false |}.
 
@@ -123,31 +144,54 @@ Fixpoint mem (i : id) (l : list id) : bool :=
 Fixpoint remove (i : id) (l : list id) : list id :=
   match l with [] => [] | k :: r => if k =? i then r else k :: remove i r end.
 
+(* the table: membership / removal of this side's request i, removal of handler task j *)
+Definition is_own (i : id) (e : entry) : bool := match e with Own k => k =? i | HTask _ => false end.
+Definition is_task (j : id) (e : entry) : bool := match e with HTask k => k =? j | Own _ => false end.
+Fixpoint memo (i : id) (es : list entry) : bool :=
+  match es with [] => false | e :: r => is_own i e || memo i r end.
+Fixpoint remove_own (i : id) (es : list entry) : list entry :=
+  match es with [] => [] | e :: r => if is_own i e then r else e :: remove_own i r end.
+Fixpoint remove_task (j : id) (es : list entry) : list entry :=
+  match es with [] => [] | e :: r => if is_task j e then r else e :: remove_task j r end.
+
+Fixpoint hget (l : list (id * hstate)) (j : id) : option hstate :=
+  match l with
+  | [] => None
+  | (k, v) :: r => if k =? j then Some v else hget r j
+  end.
+Fixpoint hset (l : list (id * hstate)) (j : id) (v : hstate) : list (id * hstate) :=
+  match l with
+  | [] => []
+  | (k, w) :: r => if k =? j then (k, v) :: r else (k, w) :: hset r j v
+  end.
+Definition h_done (h : hstate) : bool :=
+  match h with HFinished | HCancelled => true | _ => false end.
+
 Definition is_done (f : fstate) : bool := match f with Pending => false | _ => true end.
 
 (* ---- field updates ---- *)
 Definition set_futs (s : state) f := {|
-  futs := f; rf := rf s; next := next s; out := out s; pipe := pipe s; proc := proc s; tl := tl s;
+  futs := f; rf := rf s; htasks := htasks s; next := next s; out := out s; pipe := pipe s; proc := proc s; tl := tl s;
   reader := reader s; xtask := xtask s; stopped := stopped s; hook_calls := hook_calls s;
   errs := errs s; stop_called := stop_called s |}.
 Definition set_rf (s : state) r := {|
-  futs := futs s; rf := r; next := next s; out := out s; pipe := pipe s; proc := proc s; tl := tl s;
+  futs := futs s; rf := r; htasks := htasks s; next := next s; out := out s; pipe := pipe s; proc := proc s; tl := tl s;
   reader := reader s; xtask := xtask s; stopped := stopped s; hook_calls := hook_calls s;
   errs := errs s; stop_called := stop_called s |}.
 Definition set_pipe (s : state) p := {|
-  futs := futs s; rf := rf s; next := next s; out := out s; pipe := p; proc := proc s; tl := tl s;
+  futs := futs s; rf := rf s; htasks := htasks s; next := next s; out := out s; pipe := p; proc := proc s; tl := tl s;
   reader := reader s; xtask := xtask s; stopped := stopped s; hook_calls := hook_calls s;
   errs := errs s; stop_called := stop_called s |}.
 Definition set_reader (s : state) r := {|
-  futs := futs s; rf := rf s; next := next s; out := out s; pipe := pipe s; proc := proc s; tl := tl s;
+  futs := futs s; rf := rf s; htasks := htasks s; next := next s; out := out s; pipe := pipe s; proc := proc s; tl := tl s;
   reader := r; xtask := xtask s; stopped := stopped s; hook_calls := hook_calls s;
   errs := errs s; stop_called := stop_called s |}.
 Definition set_stopped (s : state) b := {|
-  futs := futs s; rf := rf s; next := next s; out := out s; pipe := pipe s; proc := proc s; tl := tl s;
+  futs := futs s; rf := rf s; htasks := htasks s; next := next s; out := out s; pipe := pipe s; proc := proc s; tl := tl s;
   reader := reader s; xtask := xtask s; stopped := b; hook_calls := hook_calls s;
   errs := errs s; stop_called := stop_called s |}.
 Definition set_errs (s : state) n := {|
-  futs := futs s; rf := rf s; next := next s; out := out s; pipe := pipe s; proc := proc s; tl := tl s;
+  futs := futs s; rf := rf s; htasks := htasks s; next := next s; out := out s; pipe := pipe s; proc := proc s; tl := tl s;
   reader := reader s; xtask := xtask s; stopped := stopped s; hook_calls := hook_calls s;
   errs := n; stop_called := stop_called s |}.
 
@@ -156,7 +200,8 @@ Definition set_errs (s : state) n := {|
 (* send_request: future created, entered in _request_futures, request written.  The write never
    raises towards the caller (_send_data catches everything), dead server or not. *)
 Definition do_send (s : state) : state := {|
-  futs := futs s ++ [(next s, Pending)]; rf := rf s ++ [next s]; next := next s + 1;
+  futs := futs s ++ [(next s, Pending)]; rf := rf s ++ [Own (next s)]; htasks := htasks s;
+  next := next s + 1;
   out := out s ++ [next s]; pipe := pipe s; proc := proc s; tl := tl s; reader := reader s;
   xtask := xtask s; stopped := stopped s; hook_calls := hook_calls s; errs := errs s;
   stop_called := stop_called s |}.
@@ -182,8 +227,8 @@ Definition call_error_handler (c : config) (s : state) : state :=
 (* _handle_response: pop; unknown id -> reported; set_result / set_exception on a future that is
    already done raises InvalidStateError, which run_async reports like any handling error *)
 Definition handle_reply (c : config) (s : state) (i : id) (r : res) : state :=
-  if mem i (rf s) then
-    let s1 := set_rf s (remove i (rf s)) in
+  if memo i (rf s) then
+    let s1 := set_rf s (remove_own i (rf s)) in
     match aget (futs s1) i with
     | Some Pending =>
       set_futs s1 (aset (futs s1) i (match r with RResult v => Resolved v | RError code => FailedRpc code end))
@@ -191,11 +236,43 @@ Definition handle_reply (c : config) (s : state) (i : id) (r : res) : state :=
     end
   else call_error_handler c s.
 
+(* _handle_request -> _execute_request with a coroutine handler:
+   future = asyncio.ensure_future(handler(params)); self._request_futures[msg_id] = future.
+   (Server request ids are assumed distinct from each other and from this side's ids; a repeated
+   id is ignored here.) *)
+Definition set_htasks (s : state) h := {|
+  futs := futs s; rf := rf s; htasks := h; next := next s; out := out s; pipe := pipe s; proc := proc s;
+  tl := tl s; reader := reader s; xtask := xtask s; stopped := stopped s; hook_calls := hook_calls s;
+  errs := errs s; stop_called := stop_called s |}.
+
+Definition handle_request (s : state) (j : id) : state :=
+  match hget (htasks s) j with
+  | None => set_htasks (set_rf s (rf s ++ [HTask j])) (htasks s ++ [(j, HSuspended)])
+  | Some _ => s
+  end.
+
+(* the handler task gets a turn.  With a cancellation requested it takes the CancelledError and
+   the done-callback _execute_request_callback answers (with an error) and pops the table entry;
+   otherwise it is still waiting *)
+Definition handler_step (s : state) (j : id) : state :=
+  match hget (htasks s) j with
+  | Some HCancelRequested => set_htasks (set_rf s (remove_task j (rf s))) (hset (htasks s) j HCancelled)
+  | _ => s
+  end.
+
+(* the handler returns: the done-callback answers and pops the table entry *)
+Definition handler_return (s : state) (j : id) : state :=
+  match hget (htasks s) j with
+  | Some HSuspended => set_htasks (set_rf s (remove_task j (rf s))) (hset (htasks s) j HFinished)
+  | _ => s
+  end.
+
 Definition handle_item (c : config) (s : state) (it : item) : state :=
   match it with
   | Reply i r => handle_reply c s i r
   | BadReply _ => call_error_handler c s    (* structure_message / handle_message give up: the
                                                request stays outstanding, its future pending *)
+  | Request j => handle_request s j
   | BadFrame => call_error_handler c s      (* json.loads raises inside the try *)
   | Junk => s                               (* no Content-Length match, not blank: next line *)
   end.
@@ -245,14 +322,29 @@ Definition reader_run (c : config) (s : state) : state :=
 
 (* ---- the exit watcher: _server_exit ---- *)
 
-(* for id_, fut in _request_futures.items(): if not fut.done(): fut.set_exception(...) *)
-Fixpoint fail_all (rc : Z) (ids : list id) (f : list (id * fstate)) : list (id * fstate) :=
-  match ids with
-  | [] => f
-  | i :: r =>
+(* for id_, fut in _request_futures.items():
+       if not fut.done(): <fail it>
+   Own request: fut.set_exception(RuntimeError(reason)).
+   Handler task: in the unrepaired code the same call - asyncio.Task.set_exception raises
+   RuntimeError("Task does not support set_exception operation") and the loop (and the coroutine)
+   ends there; in the repaired code fut.cancel().  Result: futures, handler tasks, raised? *)
+Fixpoint fail_loop (c : config) (rc : Z) (es : list entry)
+         (f : list (id * fstate)) (h : list (id * hstate))
+  : list (id * fstate) * list (id * hstate) * bool :=
+  match es with
+  | [] => (f, h, false)
+  | Own i :: r =>
     match aget f i with
-    | Some Pending => fail_all rc r (aset f i (FailedExit rc))
-    | _ => fail_all rc r f
+    | Some Pending => fail_loop c rc r (aset f i (FailedExit rc)) h
+    | _ => fail_loop c rc r f h
+    end
+  | HTask j :: r =>
+    match hget h j with
+    | Some st =>
+      if h_done st then fail_loop c rc r f h
+      else if fix_task c then fail_loop c rc r f (hset h j HCancelRequested)
+           else (f, h, true)
+    | None => fail_loop c rc r f h
     end
   end.
 
@@ -260,11 +352,11 @@ Definition all_done (f : list (id * fstate)) (ids : list id) : bool :=
   forallb (fun i => match aget f i with Some st => is_done st | None => false end) ids.
 
 Definition set_hook_calls (s : state) h := {|
-  futs := futs s; rf := rf s; next := next s; out := out s; pipe := pipe s; proc := proc s; tl := tl s;
+  futs := futs s; rf := rf s; htasks := htasks s; next := next s; out := out s; pipe := pipe s; proc := proc s; tl := tl s;
   reader := reader s; xtask := xtask s; stopped := stopped s; hook_calls := h;
   errs := errs s; stop_called := stop_called s |}.
 Definition set_xtask (s : state) x := {|
-  futs := futs s; rf := rf s; next := next s; out := out s; pipe := pipe s; proc := proc s; tl := tl s;
+  futs := futs s; rf := rf s; htasks := htasks s; next := next s; out := out s; pipe := pipe s; proc := proc s; tl := tl s;
   reader := reader s; xtask := x; stopped := stopped s; hook_calls := hook_calls s;
   errs := errs s; stop_called := stop_called s |}.
 
@@ -281,7 +373,9 @@ Definition server_exit_task (c : config) (s : state) : state :=
   | XWaiting =>
     match proc s with
     | Exited rc =>
-      let s1 := set_futs s (fail_all rc (rf s) (futs s)) in
+      let '(f1, h1, raised) := fail_loop c rc (rf s) (futs s) (htasks s) in
+      let s1 := set_htasks (set_futs s f1) h1 in
+      if raised then set_xtask s1 (XRaised ExTaskSetException) else
       let ids := map fst (futs s1) in
       let s2 := set_hook_calls s1 (hook_calls s1 ++ [(rc, all_done (futs s1) ids)]) in
       match hook c with
@@ -301,11 +395,12 @@ Definition server_exit_task (c : config) (s : state) : state :=
     | _ => finish_exit s
     end
   | XDone => s
+  | XRaised _ => s
   end.
 
 (* ---- stop() ---- *)
 Definition do_stop (s : state) : state := {|
-  futs := futs s; rf := rf s; next := next s; out := out s; pipe := pipe s; proc := proc s; tl := tl s;
+  futs := futs s; rf := rf s; htasks := htasks s; next := next s; out := out s; pipe := pipe s; proc := proc s; tl := tl s;
   reader := reader s; xtask := xtask s; stopped := true; hook_calls := hook_calls s;
   errs := errs s; stop_called := true |}.
 
@@ -315,10 +410,11 @@ Definition stop_outcome (s : state) : stop_result :=
   match proc s with
   | Alive => StopBlocked
   | Exited _ =>
-    match reader s with
-    | RRaised e => StopRaises e
-    | REnded => match xtask s with XDone => StopReturns | _ => StopBlocked end
-    | _ => StopBlocked
+    match reader s, xtask s with
+    | RRaised e, _ => StopRaises e
+    | _, XRaised e => StopRaises e
+    | REnded, XDone => StopReturns
+    | _, _ => StopBlocked
     end
   end.
 
@@ -332,7 +428,7 @@ Definition srv_write (s : state) (it : item) : state :=
 Definition proc_exit (s : state) (rc : Z) (t : tail) : state :=
   match proc s with
   | Alive => {|
-      futs := futs s; rf := rf s; next := next s; out := out s; pipe := pipe s; proc := Exited rc;
+      futs := futs s; rf := rf s; htasks := htasks s; next := next s; out := out s; pipe := pipe s; proc := Exited rc;
       tl := t; reader := reader s; xtask := xtask s; stopped := stopped s;
       hook_calls := hook_calls s; errs := errs s; stop_called := stop_called s |}
   | Exited _ => s
@@ -346,6 +442,8 @@ Definition step (c : config) (s : state) (e : event) : state :=
   | ProcExit rc t => proc_exit s rc t
   | ReaderRun => reader_run c s
   | ServerExitTask => server_exit_task c s
+  | HandlerStep j => handler_step s j
+  | HandlerReturn j => handler_return s j
   | Stop => do_stop s
   end.
 
@@ -358,15 +456,16 @@ Record obs := {
   o_hooks : list (Z * bool);
   o_stopped : bool;
   o_stop : stop_result;        (* the outcome of `await client.stop()` called now *)
-  o_errs : N
+  o_errs : N;
+  o_htasks : list (id * hstate)
 }.
 
 Definition observe (s : state) : obs := {|
   o_futs := futs s; o_hooks := hook_calls s; o_stopped := stopped s;
-  o_stop := stop_outcome s; o_errs := errs s |}.
+  o_stop := stop_outcome s; o_errs := errs s; o_htasks := htasks s |}.
 
 (* the target state of the repository / the pinned commit *)
 Definition repaired (h : hook_kind) (e : bool) : config :=
-  {| fix_eof := true; fix_wrap := true; hook := h; errhook_raises := e |}.
+  {| fix_eof := true; fix_wrap := true; fix_task := true; hook := h; errhook_raises := e |}.
 Definition pinned (h : hook_kind) (e : bool) : config :=
-  {| fix_eof := false; fix_wrap := false; hook := h; errhook_raises := e |}.
+  {| fix_eof := false; fix_wrap := false; fix_task := false; hook := h; errhook_raises := e |}.
